@@ -14,12 +14,20 @@ def _sim_case(task):
         return dict(failed=True, crashed=True, observed=traceback.format_exc()[-800:], expected='no exception')
 
 
+def _fits_default(d, dv):
+    return True
+
+
 def sim_family(ctx, simname, fam, famname, text, function, reps=2, nsteps=6, extra=None):
     tasks = []
+    variants = [(0, 0), (1, 0), (2, 1), (3, 0), (1, 1), (2, 0)]
     for d in fam:
         for rep in range(reps):
+            ui, dv = variants[rep % len(variants)]
+            if dv and not _fits_default(d, dv):
+                dv = 0
             t = dict(design=d, simname=simname, seed=ctx.seed * 100 + rep, nsteps=nsteps,
-                     use_init=(rep % 2 == 1))
+                     use_init=ui, default_value=dv)
             if extra:
                 t.update(extra)
             tasks.append(t)
@@ -50,7 +58,7 @@ def run(ctx):
     fam = designs.family(ctx.tier, ctx.seed) + designs.wide_family(ctx.tier)
     sim_family(ctx, 'Simulation', fam, 'C01.simulation_vs_refsem',
                'pyrtl.Simulation disagrees with the documented cycle semantics',
-               'pyrtl.simulation.Simulation.step', reps=2 if ctx.tier == 'quick' else 6)
+               'pyrtl.simulation.Simulation.step', reps=3 if ctx.tier == 'quick' else 6)
     ctx.assume('Python int = mathematical integer; bit-operation rewrites of DESIGN 3.2 '
                '(lean/PyInt.lean); generator expressions evaluated eagerly')
     ctx.assume('WireVector.bitmask cache invariant: a cached _bitmask equals 2**bitwidth-1 '
